@@ -223,6 +223,20 @@ pub fn truncation(tier: &str) -> Result<String, String> {
                 } }
         }
     }
+    // ---- binary index files (gzi, BAI, CSI, tabix): a cut file is an error, or — when only the optional trailing count of unplaced
+    // unmapped records is missing — the SAME index without that count; never an index with fewer bins, intervals or references
+    for (name, file, _, run) in crate::chunked::targets()?.iter().filter(|t| ["gzi index", "BAI index", "CSI index", "tabix index"].contains(&t.0)) {
+        let strip = |s: &str| -> String { const K: &str = "unplaced_unmapped_record_count: "; let mut o = String::new(); let mut rest = s; while let Some(i) = rest.find(K) { o.push_str(&rest[..i + K.len()]); o.push('_'); let after = &rest[i + K.len()..]; let j = after.find(|c| c == ',' || c == '}').unwrap_or(after.len()); rest = &after[j..]; } o.push_str(rest); o };
+        let full = match run(&mut &file[..], None) { Ok(v) if v.len() == 1 && !v[0].starts_with("ERROR") => strip(&v[0]), other => { log.fail(format!("{name} baseline"), || format!("{name}: the uncut file reads as {other:?}")); continue; } };
+        for c in 0..file.len() {
+            log.cases += 1;
+            match std::panic::catch_unwind(std::panic::AssertUnwindSafe(|| run(&mut &file[..c], None))) {
+                Err(_) => log.fail(format!("{name} panic"), || format!("{name} cut at {c} of {}: the reader PANICS", file.len())),
+                Ok(Ok(v)) => { if v.len() == 1 && !v[0].starts_with("ERROR") && strip(&v[0]) != full { log.fail(format!("{name} shortened"), || format!("{name} cut at {c} of {}: read_index returns Ok with a DIFFERENT index than the uncut file (shortened or altered), not an error", file.len())); } }
+                Ok(Err(e)) => log.fail(format!("{name} harness"), || format!("{name}: {e}")),
+            }
+        }
+    }
     let _ = std::panic::take_hook();
     if log.fails.is_empty() { Ok(format!("\"cases\":{}", log.cases)) }
     else { Err(format!("FAILURES\n{}", log.fails.values().map(|(l, n)| format!("{l} [{n} cut(s)]")).collect::<Vec<_>>().join("\n"))) }
